@@ -177,6 +177,16 @@ Section Tags.
   Definition select_replace (sel : selector) (h : heap) (root : ref) (x : ref) : heap :=
     snd (fst (rp_visit (S (length h)) sel x ([], h) root)).
 
+  (* TagSelection.replace(value, deepcopy=False): unlike set_tagged this walks leaves first
+     (_memoized_walk_leaves_first), so every object reachable BEFORE the edit is visited, children
+     before parents, and each Buildable is overwritten when it is yielded *)
+  Definition tag_replace (h : heap) (root : ref) (T : N) (x : ref) : heap :=
+    fold_left (fun h' i => match nth_error h' i with
+                           | Some n => heap_set h' i (apply_tagged T x n)
+                           | None => h'
+                           end)
+              (snd (post_order (S (length h)) h ([], []) root)) h.
+
   (* TagSelection.__iter__: for each tagged argument its value, else its default, else NO_VALUE *)
   Definition tag_iter (h : heap) (root : ref) (T : N) : list ref :=
     flat_map (fun i =>
